@@ -178,3 +178,52 @@ Theorem bulk_load_complete_at_return :
     is_perm arrival (length items) -> all_ok items ->
     bulk_io pool_size items arrival split = (forallb truthy items, length items, None).
 Proof. exact bulk_io_all. Qed.
+
+(* ---- TileCreator._create_threaded (concurrent tile creators, raise mode) *)
+
+(* Nothing fails: the caller receives the tiles of every creator, in input order, for every completion order. *)
+Theorem create_threaded_all_tiles :
+  forall pool_size items arrival split,
+    is_perm arrival (length items) -> all_ok items ->
+    create_threaded pool_size items arrival split = (nonblank items, None).
+Proof. exact create_threaded_ok. Qed.
+
+(* A failing creator is never swallowed, whatever its position and the completion order: one of the creators'
+   own exceptions is raised and no tile list is returned. *)
+Theorem create_threaded_failure_not_swallowed :
+  forall pool_size items arrival split e0,
+    is_perm arrival (length items) -> first_exc items = Some e0 ->
+    exists e, In (Exc e) items /\ create_threaded pool_size items arrival split = ([], Some e).
+Proof. exact create_threaded_failure. Qed.
+
+(* raise mode in general (any pool size): some item's own exception is re-raised *)
+Theorem raise_mode_failure_not_swallowed :
+  forall pool_size items arrival split e0,
+    is_perm arrival (length items) -> first_exc items = Some e0 ->
+    exists e rs, In (Exc e) items /\ imap pool_size false items arrival split = (rs, Some e).
+Proof. exact imap_raise_failure. Qed.
+
+(* ---- thread-start faults: the call terminates *)
+
+(* A Thread.start() that fails while the pool is set up is reported to the caller at once (nothing is yielded,
+   no task was queued, nobody waits for a result); without a pool (one item or pool size < 2) and without a
+   fault the call is the ordinary one. *)
+Theorem thread_start_fault_is_reported :
+  forall pool_size use_result_objects items arrival split k,
+    2 <= pool_size -> 2 <= length items -> k < pool_size ->
+    imap_start pool_size use_result_objects items arrival split (Some k) = ([], Some E_START).
+Proof. exact imap_start_fault. Qed.
+
+Theorem thread_start_no_fault_is_imap :
+  forall pool_size use_result_objects items arrival split fail_at,
+    match fail_at with Some k => pool_size <= k | None => True end ->
+    imap_start pool_size use_result_objects items arrival split fail_at
+    = imap pool_size use_result_objects items arrival split.
+Proof. exact imap_start_no_fault. Qed.
+
+Theorem thread_start_no_pool_no_fault :
+  forall pool_size use_result_objects items arrival split fail_at,
+    pool_size < 2 \/ length items = 1 ->
+    imap_start pool_size use_result_objects items arrival split fail_at
+    = imap pool_size use_result_objects items arrival split.
+Proof. exact imap_start_no_pool. Qed.
